@@ -119,6 +119,54 @@ Proof.
   destruct o; cbn [c08_step]; try exact H; try (apply derive_present_mono; exact H).
 Qed.
 
+(* ================= (3) several grids ================= *)
+Lemma update_nth_other {A} (f : A -> A) (l : list A) : forall i j, i <> j -> nth_error (c08_update i f l) j = nth_error l j.
+Proof.
+  induction l as [|x l IH]; intros [|i] [|j] H; simpl; try reflexivity; try congruence. apply IH. congruence.
+Qed.
+
+Lemma update_nth_same {A} (f : A -> A) (l : list A) : forall i x, nth_error l i = Some x ->
+  nth_error (c08_update i f l) i = Some (f x).
+Proof.
+  induction l as [|y l IH]; intros [|i] x H; simpl in *; try discriminate; [inversion H; reflexivity|apply IH; exact H].
+Qed.
+
+Lemma update_length {A} (f : A -> A) (l : list A) : forall i, length (c08_update i f l) = length l.
+Proof. induction l as [|x l IH]; intros [|i]; simpl; auto. Qed.
+
+(* operations on other grids never change what grid j holds; the module constants never change *)
+Theorem world_frame ops : forall w j,
+  Forall (fun io => fst io <> j) ops ->
+  nth_error (w_grids (c08_world_run w ops)) j = nth_error (w_grids w) j
+  /\ w_globals (c08_world_run w ops) = w_globals w.
+Proof.
+  induction ops as [|io ops IH]; intros w j H; simpl; [split; reflexivity|].
+  inversion H as [|? ? Hio Hrest]; subst.
+  destruct (IH (c08_world_step w io) j Hrest) as [E1 E2]. rewrite E1, E2. simpl.
+  split; [apply update_nth_other; exact Hio|reflexivity].
+Qed.
+
+(* every grid of the world keeps the invariant through any interleaved history *)
+Theorem world_inv ops : forall w,
+  Forall AllCanon (w_grids w) -> Forall AllCanon (w_grids (c08_world_run w ops)).
+Proof.
+  induction ops as [|io ops IH]; intros w H; simpl; [exact H|]. apply IH. simpl.
+  clear IH. generalize (fst io) as i. revert H. generalize (w_grids w) as l.
+  induction l as [|s l IHl]; intros H [|i]; simpl; try exact H.
+  - inversion H; subst. constructor; [apply step_inv; assumption|assumption].
+  - inversion H; subst. constructor; [assumption|apply IHl; assumption].
+Qed.
+
+(* hence: in any interleaved history over any number of grids, every observation on every grid equals
+   the fresh-grid observation *)
+Theorem world_observe ops w j s v :
+  Forall AllCanon (w_grids w) -> nth_error (w_grids (c08_world_run w ops)) j = Some s ->
+  c08_observe s v = Some Canon.
+Proof.
+  intros H Hj. pose proof (world_inv ops w H) as Hall. rewrite Forall_forall in Hall.
+  pose proof (Hall s (nth_error_In _ _ Hj)) as Hs. apply (observe_history s [] v Hs).
+Qed.
+
 (* ================= (2) caches ================= *)
 Section CacheProofs.
   Variable V : Type.
